@@ -4,7 +4,7 @@ from . import srv, conn
 from .c09 import pairing, hangup, closed_enqueue, is_connections
 from .conn import leaves, ret_kind
 from .srv import S, CC, calls
-from .util import const_of, is_call, last_seg, look, norm, truth, option_is_some
+from .util import const_of, is_call, last_seg, look, norm, truth, option_is_some, payload_of
 
 EXPLANATION = (
     "Static decision of the capacity mechanism: the single insertion into the connection map lies "
@@ -102,9 +102,41 @@ def refusal(ctx):
         acc = calls(lf, "accept")
         bad = calls(lf, S + "epoll_add", "insert")
         thens = [e for e in lf.events if e[0] == "call" and last_seg(e[3]) == "and_then"]
-        ok = len(acc) == 1 and not bad and len(thens) == 1
+        ok = len(acc) == 1 and not bad and len(thens) <= 1
         wrote = False
-        if ok:
+        if ok and not thens:
+            # written out in sequence (possibly in a helper): accept()?; stream.write(MESSAGE)?; the stream
+            # is a local that nothing else receives, so it is dropped (= closed) when its scope ends
+            from .c06 import direct_subterms
+            def from_accept(t):
+                for st_ in direct_subterms(t):
+                    if isinstance(st_, tuple) and st_:
+                        src = payload_of(st_)
+                        if src is not None and is_call(src, "accept"):
+                            return True
+                return False
+            accepted = None
+            for (t, c, _b) in lf.conds:
+                if t[0] != "discr":
+                    continue
+                x = look(t[1])
+                viabranch = is_call(x, "branch")
+                if viabranch:
+                    x = look(x[2][0])
+                while is_call(x, "map_err") and x[2]:
+                    x = look(x[2][0])
+                if is_call(x, "accept"):
+                    accepted = (c == ("eq", 0))
+            if accepted is None:
+                ok = False
+            elif accepted:
+                users = [e for e in lf.events if e[0] == "call" and any(from_accept(a) for a in e[4][2])]
+                w = [e for e in users if last_seg(e[3]) == "write"]
+                ok = len(w) == 1 and len(users) == 1 and look(w[0][4][2][1]) in (("static", "server::SERVER_FULL_ERROR_MESSAGE"), ("deref", ("static", "server::SERVER_FULL_ERROR_MESSAGE")))
+                wrote = ok
+            else:
+                wrote = not calls(lf, "write")   # nothing was accepted: nothing to write to
+        elif ok:
             clo = look(thens[0][4][2][1])
             src = look(thens[0][4][2][0])
             ok = clo[0] == "closure" and is_call(src, "map_err") and is_call(look(src[2][0]), "accept")
